@@ -33,7 +33,14 @@ def generate(rng, tier, index):
     shape = specgen.rand_shape(rng, 3, 9)
     bloch = bool(rng.uniform() < 0.35)
     faces = specgen.rand_faces(rng, kinds_pair=("periodic",), kinds_single=("pec", "pmc", "none"), pml=None, bloch=bloch)
-    spec = {"shape": shape, "grid": specgen.rand_grid(rng, shape, 0.5), "steps": T, "faces": faces, "key": 0}
+    grid = specgen.rand_grid(rng, shape, 0.5)
+    off_draw = [float(specgen.choice(rng, [0.0, 1e-3, 0.05, 1.0]) * (1 if rng.uniform() < 0.5 else -1)) for _ in range(3)]
+    if grid["kind"] == "rect" and rng.uniform() < 0.4:
+        # absolute layout coordinates far from the origin: cell widths are then small differences of large edge coordinates
+        # (relative rounding 2e-16 * |coordinate| / width); conservation must hold for the widths the edges actually define
+        grid["edges"] = [[x + o for x in e] for e, o in zip(grid["edges"], off_draw)]
+        grid["offset"] = off_draw
+    spec = {"shape": shape, "grid": grid, "steps": T, "faces": faces, "key": 0}
     if any(f["kind"] == "bloch" for f in faces.values()):
         spec["bloch_vector"] = [
             float(rng.uniform(-1, 1) * np.pi / (shape[a] * specgen.SPACING)) if faces[f"min_{ax}"]["kind"] == "bloch" else 0.0 for a, ax in enumerate("xyz")
@@ -120,6 +127,7 @@ def execute(spec):
             viol.append({"monitor": "energy_not_conserved", "step": int(bad[0]) + 1, "metric": "rel_drift", "value": float(dev[bad[0]]), "tolerance": TOL})
     stats["probe_complex"] = int(np.iscomplexobj(Hprev))
     stats["probe_nonuniform"] = int(spec["grid"]["kind"] == "rect")
+    stats["probe_far_from_origin"] = int(any(abs(o) >= 0.05 for o in spec["grid"].get("offset", [0.0])))
     stats["probe_lossy"] = int(lossy)
     stats["probe_magnetic"] = int(np.ndim(mats["inv_permeabilities"]) > 0)
     sig = specgen.scene_signature(spec, lossy, bool(crash_at))
